@@ -472,6 +472,7 @@ func (e *env) stmt(s Stmt) {
 	case *Text:
 		e.out.WriteString(s.S)
 	case *Comment:
+	case *TrimmedText:
 	case *FailStmt:
 		e.fail(s.Class, s)
 	case *API:
